@@ -10,6 +10,7 @@ TRUSTED = [
     'Coq 8.16.1 kernel (coqc, vm_compute); coqchk in thorough tier',
     'axioms: none (Print Assumptions must report "Closed under the global context" for every theorem of Props/C05.v)',
     'hand-written Gallina model Model/IntExpr.v (codomain, pyeval, lex, pgo) of lib/intexpr.py CodomainEvaluator/Evaluator/lexer/parser',
+    'source translator tools/gen/gen_intexpr_src.py (python ast -> Gallina, rules in its docstring) + Lib/PySrc.v: Generated/IntExprSrc.v is trusted to mean what the methods of class CodomainEvaluator/BaseEvaluator mean; the hand-written mirror of the getattr dispatch and gcd = Z.gcd are tied by correspondence only',
     'extraction (ExtrOcamlBasic only) + ocaml/driver.ml + zarith for decimal I/O',
     'correspondence harness tools/harness/intexpr_lib.py: agreement on explored inputs is evidence, not proof, that the model is the code',
     'rply (LALR tables, lexer) and CPython int arithmetic are modelled, not verified',
